@@ -44,13 +44,15 @@ CONSTANTS Clients,      \* set of client ids (integers)
           OpKinds,      \* subset of {"store","fetch","rise","clear"}
           EvictL1,      \* BOOLEAN: may an L1 drop entries spontaneously
           Restarts,     \* how often a server may restart (loses contents AND generation counter); 0 in C10
-          Mut           \* "none" | "l1hit" | "genreset" | "nopurge" | "nostoreinv" | "union" | "emptykeep"
+          Mut           \* "none" | "l1hit" | "genreset" | "nopurge" | "nostoreinv" | "union" | "emptykeep" | "l1stamp"
 
 VARIABLES conf,     \* [l1 |-> set of clients that have an L1, ns |-> number of servers]
           place,    \* key -> server
           srv,      \* srv[s][n]  : entry
           genc,     \* genc[s]    : next generation of server s
           l1,       \* l1[c][n]   : entry (gen = the server's generation)
+          l1c,      \* l1c[c]     : the L1's OWN store counter - unused by the design (every L1 entry carries the
+                    \*               server's stamp); only the broken variant Mut = "l1stamp" stamps with it
           pc,       \* pc[c]      : the running operation of client c
           now,
           nv,       \* value ids handed out so far
@@ -58,7 +60,7 @@ VARIABLES conf,     \* [l1 |-> set of clients that have an L1, ns |-> number of 
           killed,   \* history: value ids replaced / invalidated by an operation that has RETURNED
           done      \* done[c] = operations completed by c
 
-vars == <<conf, place, srv, genc, l1, pc, now, nv, genlog, killed, done>>
+vars == <<conf, place, srv, genc, l1, l1c, pc, now, nv, genlog, killed, done>>
 
 Names   == Keys \cup Trigs
 AllSrv  == 0..(CHOOSE m \in NSrvs : \A x \in NSrvs : x <= m) - 1
@@ -78,12 +80,13 @@ Idle == [st |-> "idle", op |-> "none", k |-> 0, v |-> 0, ts |-> {}, dl |-> 0,
          res |-> NoEntry, wit |-> NoEntry, kills |-> {}, forbid |-> {}]
 
 S == [conf |-> conf, place |-> place, srv |-> srv, genc |-> genc, l1 |-> l1, pc |-> pc,
-      now |-> now, nv |-> nv, genlog |-> genlog, killed |-> killed, done |-> done]
+      now |-> now, nv |-> nv, genlog |-> genlog, killed |-> killed, done |-> done,
+      l1c |-> l1c]
 
 Set(T) ==
     /\ conf' = T.conf /\ place' = T.place /\ srv' = T.srv /\ genc' = T.genc /\ l1' = T.l1
     /\ pc' = T.pc /\ now' = T.now /\ nv' = T.nv /\ genlog' = T.genlog /\ killed' = T.killed
-    /\ done' = T.done
+    /\ done' = T.done /\ l1c' = T.l1c
 
 HasL1(T, c) == c \in T.conf.l1
 
@@ -164,8 +167,14 @@ SrvF(T, c, s) ==
 (* L1 update after a fetch reply                                             *)
 UpdF(T, c) ==
     LET p == T.pc[c]
+        \* broken variant "l1stamp": the first local copy of a key (L1 miss, then data from the server) is
+        \* stamped with the L1's own counter, which runs independently of every server's counter
+        loc == Mut = "l1stamp" /\ p.rep = "data" /\ ~p.cond
     IN [T EXCEPT !.pc[c] = [p EXCEPT !.st = "ret"],
-                 !.l1[c] = [@ EXCEPT ![p.k] = IF p.rep = "data" THEN p.res ELSE NoEntry]]
+                 !.l1[c] = [@ EXCEPT ![p.k] = IF p.rep = "data"
+                                              THEN (IF loc THEN [p.res EXCEPT !.gen = T.l1c[c]] ELSE p.res)
+                                              ELSE NoEntry],
+                 !.l1c[c] = IF loc THEN @ + 1 ELSE @]
 
 RetF(T, c) ==
     [T EXCEPT !.pc[c] = Idle, !.killed = @ \cup T.pc[c].kills, !.done[c] = @ + 1]
@@ -199,6 +208,7 @@ Init ==
     /\ pc = [c \in Clients |-> Idle]
     /\ now = 0 /\ nv = 0 /\ genlog = {} /\ killed = {}
     /\ done = [c \in Clients |-> 0]
+    /\ l1c = [c \in Clients |-> 0]
 
 Ops == [op : {"store"} \cap OpKinds, k : Keys, v : {nv + 1}, ts : TrigSets, dl : Deadlines]
   \cup [op : {"fetch"} \cap OpKinds, k : Keys, v : {0}, ts : {{}}, dl : {0}]
@@ -225,14 +235,14 @@ SrvStep(c) ==
 Tick ==
     /\ now < MaxNow
     /\ now' = now + 1
-    /\ UNCHANGED <<conf, place, srv, genc, l1, pc, nv, genlog, killed, done>>
+    /\ UNCHANGED <<conf, place, srv, genc, l1, l1c, pc, nv, genlog, killed, done>>
 
 Evict(c) ==
     /\ EvictL1 /\ c \in conf.l1
     /\ \E n \in Keys :
           /\ l1[c][n].has
           /\ l1' = [l1 EXCEPT ![c][n] = NoEntry]
-    /\ UNCHANGED <<conf, place, srv, genc, pc, now, nv, genlog, killed, done>>
+    /\ UNCHANGED <<conf, place, srv, genc, l1c, pc, now, nv, genlog, killed, done>>
 
 (* Outside C10's quantifier (kept to show what the handshake relies on): a    *)
 (* restarted server starts stamping from 0 again.                              *)
@@ -241,7 +251,7 @@ Restart(s) ==
     /\ srv' = [srv EXCEPT ![s] = [n \in Keys |-> NoEntry]]
     /\ genc' = [genc EXCEPT ![s] = 0]
     /\ genlog' = genlog \cup {<<s, -1, Cardinality(genlog), 0, {}, 0>>}
-    /\ UNCHANGED <<conf, place, l1, pc, now, nv, killed, done>>
+    /\ UNCHANGED <<conf, place, l1, l1c, pc, now, nv, killed, done>>
 
 Next ==
     \/ \E c \in Clients : Begin(c) \/ Step(c) \/ SrvStep(c) \/ Evict(c)
